@@ -66,6 +66,31 @@ pub fn run(cli: &Cli, rep: &Report) {
     let big_n = if thorough { 600_000 } else { 300_000 };
     let bigs: Vec<Vec<Seg>> = vec![vec![Seg::C(big_n)], vec![Seg::X(big_n)], vec![Seg::C(big_n / 2), Seg::R(70_000), Seg::D(4000, big_n / 2 - 70_000)]];
     let bcuts = [1usize, 4096, 4097, 65536, 65537, 270_000, 274_000, 280_000, big_n - 300, big_n - 1];
+    // Cuts relative to the encoder's window buffer (its size W is observed from the allocator): a write that ends exactly
+    // at, one byte before or one byte after the physical end of the buffer, and two half-window writes. The input is
+    // W + 70 000 bytes so that the window moves after the cut; the longest nice length is included because how far the
+    // encoder looks ahead at the end of a full window depends on it.
+    let mut wsizes = vec![];
+    for c in [Container::LzmaHdrMarker, Container::Lzma2, Container::Lzip { member: None }] {
+        let mut os = combos(4096);
+        os.extend(combos(4096).into_iter().map(|o| Opts { nice: 273, ..o }));
+        for o in os {
+            mc_core::alloc::begin();
+            let _ = catch(|| codec::encode(&c, &o, &[1, 2, 3], &[]));
+            let w = mc_core::alloc::biggest_bytes_request();
+            if w < 8192 || w > 2_000_000 {
+                rep.machinery_error(format!("C13: implausible window size {w} observed for {} {}", c.desc(), o.desc()));
+                continue;
+            }
+            wsizes.push(json!({"container": c.desc(), "opts": o.desc(), "window": w}));
+            for segs in [vec![Seg::C(w + 70_000)], vec![Seg::X(w + 70_000)]] {
+                for cuts in [vec![w - 1], vec![w], vec![w + 1], vec![w / 2, w], vec![w - 4096, w], vec![w, w + 273], vec![1, w]] {
+                    pcases.push(PCase { cont: c.clone(), opts: o, segs: segs.clone(), cuts });
+                }
+            }
+        }
+    }
+    rep.extra("window_relative_cuts", json!(wsizes));
     for c in [Container::LzmaHdrMarker, Container::Lzma2, Container::Lzip { member: None }] {
         for o in combos(4096) {
             for b in &bigs {
